@@ -29,6 +29,8 @@ func checkC05(p *Program, r *Report) {
 	pe := newPenum(p)
 	vers := supportedVersions(p, pe)
 	r.Floor("header-shape", 5)
+	// raw frames must own their bytes: nothing pooled may back a RawFrame body
+	poolHygiene(p, r, "pool-hygiene")
 
 	headerPrefix := func(fn *types.Func, n int, presets map[string]Val, v Val) map[string]bool {
 		out := map[string]bool{}
@@ -170,6 +172,9 @@ func c05RawCount(p *Program, r *Report) {
 					count = c.Call.Args[2]
 				} else if c.Call.IsInvoke() && c.Call.Method.Name() == "Seek" {
 					count = c.Call.Args[0]
+				} else if f != nil && f.String() == "io.ReadFull" && sliceLenOf(c.Call.Args[1]) != nil {
+					// io.ReadFull(source, buf) reads exactly len(buf) bytes: buf must be make([]byte, BodyLength)
+					count = sliceLenOf(c.Call.Args[1])
 				} else if f != nil && (f.String() == "io.ReadFull" || f.String() == "io.Copy" || strings.HasSuffix(f.String(), ".ReadFrom") || strings.HasSuffix(f.String(), ".Next") || strings.HasSuffix(f.String(), ".Read")) {
 					bad = fmt.Sprintf("%s: the body is consumed by %s, whose count is not tied to header.BodyLength", p.pos(c.Pos()), f.String())
 					continue
@@ -326,4 +331,38 @@ func isFieldLoad(v ssa.Value, base ssa.Value, field string) bool {
 	}
 	b, fld, ok := fieldAddrOf(u.X)
 	return ok && fld.Name() == field && b == base
+}
+
+// sliceLenOf: the length operand of the make([]byte, n) that produced buf (through named results
+// and phis of a single allocation), or nil.
+func sliceLenOf(buf ssa.Value) ssa.Value {
+	switch x := buf.(type) {
+	case *ssa.MakeSlice:
+		return x.Len
+	case *ssa.Slice:
+		if x.Low == nil && x.High == nil {
+			return sliceLenOf(x.X)
+		}
+	case *ssa.Phi:
+		var res ssa.Value
+		for _, e := range x.Edges {
+			if k, ok := e.(*ssa.Const); ok && k.Value == nil {
+				continue
+			}
+			l := sliceLenOf(e)
+			if l == nil || res != nil && res != l {
+				return nil
+			}
+			res = l
+		}
+		return res
+	case *ssa.UnOp:
+		// a spilled local: the single store into it
+		if a, ok := x.X.(*ssa.Alloc); ok {
+			if v, ok := soleStoreToAlloc(a); ok {
+				return sliceLenOf(v)
+			}
+		}
+	}
+	return nil
 }
